@@ -6,14 +6,8 @@ SPEC = {
     'coq_check': 'C08_check',
     'parts': [
         {'pkg': 'execute/report', 'pkgname': 'report',
-         'src': 'harness/execute/report/c08_test.go', 'test': 'TestVerif_C08_add', 'env': {'VERIF_C08_PART': '0'},
-         'sinks': {'C08_add_0': 'add_judge'}, 'n': {'quick': 100, 'thorough': 3000}},
-        {'pkg': 'execute/report', 'pkgname': 'report',
-         'src': 'harness/execute/report/c08_test.go', 'test': 'TestVerif_C08_add', 'env': {'VERIF_C08_PART': '1'},
-         'sinks': {'C08_add_1': 'add_judge'}, 'n': {'quick': 100, 'thorough': 3000}},
-        {'pkg': 'execute/report', 'pkgname': 'report',
-         'src': 'harness/execute/report/c08_test.go', 'test': 'TestVerif_C08_add', 'env': {'VERIF_C08_PART': '2'},
-         'sinks': {'C08_add_2': 'add_judge'}, 'n': {'quick': 100, 'thorough': 3000}},
+         'src': 'harness/execute/report/c08_test.go', 'test': 'TestVerif_C08_add',
+         'sinks': {'C08_add_0': 'add_judge'}, 'n': {'quick': 300, 'thorough': 9000}},
         {'pkg': 'execute/report', 'pkgname': 'report',
          'src': 'harness/execute/report/c08_test.go', 'test': 'TestVerif_C08_mm',
          'sinks': {'C08_mm': 'mm_judge'}, 'n': {'quick': 300, 'thorough': 12000}},
